@@ -291,6 +291,24 @@ func ccValueText(v reflect.Value) string {
 	return s
 }
 
+type ccNestIn struct {
+	X int            `json:",omitempty"`
+	Y []int          `json:",omitempty"`
+	Z map[string]int `json:",omitempty"`
+	W string         `json:",omitempty"`
+}
+
+type ccNest struct {
+	A *ccNestIn `json:",omitempty"`
+	L []ccNestIn
+	M map[string]ccNestIn
+	B int `json:",omitempty"`
+	C ccNestIn
+	D [][]int
+	E map[string]map[string]int
+	F interface{}
+}
+
 type ccRecF struct {
 	V    float64            `json:"v"`
 	Next *ccRecF            `json:"next,omitempty"`
@@ -368,6 +386,81 @@ func TestVerifConform_encode(t *testing.T) {
 				cases++
 				ccCompareMarshal(t, id, "map element", m.Interface())
 			}
+		}
+	}
+	// nesting: empty / non-empty members at the start, in the middle and at the end of
+	// nested objects, arrays and maps (commas, omitted members, frames of the encoder)
+	var inner []ccNestIn
+	for b := 0; b < 16; b++ {
+		var in ccNestIn
+		if b&1 != 0 {
+			in.X = 256
+		}
+		if b&2 != 0 {
+			in.Y = []int{1, 2}
+		}
+		if b&4 != 0 {
+			in.Z = map[string]int{"z": 1}
+		}
+		if b&8 != 0 {
+			in.W = "w"
+		}
+		inner = append(inner, in)
+	}
+	for i, v1 := range inner {
+		for j, v2 := range inner {
+			cases++
+			n := ccNest{L: []ccNestIn{v1, v2}, M: map[string]ccNestIn{"a": v1, "b": v2}, B: (i + j) % 2, C: v2,
+				D: [][]int{{}, {i}, nil, {i, j}}, E: map[string]map[string]int{"p": {}, "q": {"r": j}}, F: []interface{}{v1, &v2, nil}}
+			if i%3 != 0 {
+				c := v1
+				n.A = &c
+			}
+			ccCompareMarshal(t, fmt.Sprintf("encode:nested#%d/%d", i, j), "ccNest", n)
+		}
+	}
+	// map keys: every key kind encoding/json allows, and enough keys for every stage of
+	// the key sort
+	for _, m := range []interface{}{
+		map[uint64]string{0: "a", 1: "b", 1 << 63: "c", math.MaxUint64: "d", 10: "e", 9: "f"},
+		map[int64]string{math.MinInt64: "a", -1: "b", 0: "c", math.MaxInt64: "d", 10: "e", 9: "f", -10: "g"},
+		map[int8]int{-128: 1, -1: 2, 0: 3, 127: 4},
+		map[uint8]int{0: 1, 255: 2, 128: 3, 9: 4, 10: 5},
+		map[uint16]bool{256: true, 65535: false},
+		map[int]interface{}{-1: nil, 1 << 40: 1},
+		map[uintptr]int{1 << 63: 1, 2: 2},
+		map[json.Number]int{"1": 1, "a": 2, "": 3},
+	} {
+		cases++
+		ccCompareMarshal(t, fmt.Sprintf("encode:keys(%T)", m), "map", m)
+	}
+	for _, n := range []int{2, 11, 12, 13, 24, 50, 300, 2500} {
+		for _, gen := range []struct {
+			name string
+			f    func(i int) string
+		}{
+			{"hashed", func(i int) string { return fmt.Sprintf("%x", uint32(i+1)*2654435761) }},
+			{"descending", func(i int) string { return fmt.Sprintf("k%06d", 999999-i) }},
+			{"prefix-lengths", func(i int) string { return strings.Repeat("a", i%40) + fmt.Sprint(i) }},
+			{"long-common-prefix", func(i int) string { return "commonprefix-commonprefix-" + fmt.Sprintf("%x", uint32(i+7)*40503) }},
+			// (0x08 and 0x0c are left out: encoding/json spells them \b, \f since Go 1.22 and
+			// \u0008, \u000c before; sonic keeps the older spelling)
+			{"bytes", func(i int) string {
+				b := []byte{byte(i * 37), byte(i >> 3), byte(i)}
+				for k := range b {
+					if b[k] == 8 || b[k] == 12 {
+						b[k] = 'x'
+					}
+				}
+				return string(b)
+			}},
+		} {
+			m := map[string]int{}
+			for i := 0; i < n; i++ {
+				m[gen.f(i)] = i
+			}
+			cases++
+			ccCompareMarshal(t, fmt.Sprintf("encode:map-of-%d-%s-keys", n, gen.name), "map[string]int", m)
 		}
 	}
 	fmt.Printf("CONFORM-STATS test=encode cases=%d\n", cases)
@@ -472,8 +565,20 @@ func ccDeepEq(a, b reflect.Value) bool {
 }
 
 func ccCompareUnmarshal(t *testing.T, id string, ctx string, ty reflect.Type, doc string, useNumber bool) {
+	ccCompareUnmarshalPre(t, id, ctx, ty, "", doc, useNumber)
+}
+
+// ccCompareUnmarshalPre: with pre != "" both destinations are first filled (by
+// encoding/json) from pre, so the decoders run into a populated value.
+func ccCompareUnmarshalPre(t *testing.T, id string, ctx string, ty reflect.Type, pre string, doc string, useNumber bool) {
 	want := reflect.New(ty)
 	got := reflect.New(ty)
+	if pre != "" {
+		if json.Unmarshal([]byte(pre), want.Interface()) != nil || json.Unmarshal([]byte(pre), got.Interface()) != nil {
+			return
+		}
+		ctx += ", destination already holding " + pre
+	}
 	var werr, gerr error
 	if useNumber {
 		d := json.NewDecoder(strings.NewReader(doc))
@@ -525,6 +630,39 @@ func TestVerifConform_decode(t *testing.T) {
 				ccCompareUnmarshal(t, id, "map element", reflect.MapOf(reflect.TypeOf(""), f.Type), `{"k":`+raw+`,"":`+raw+`}`, false)
 				ccCompareUnmarshal(t, id, "field "+f.Name+", UseNumber", st, `{"`+f.Name+`":`+raw+`}`, true)
 			}
+		}
+	}
+	// populated destinations: what a document leaves untouched stays, what it names is
+	// replaced or merged exactly as encoding/json does
+	pres := []string{
+		`{"I16":7,"S":"old","Sl":[1,2,3],"SlS":["x","y","z"],"M":{"old":1,"k":2},"A":[5,6],"St":{"x":9},"PSt":{"x":9},"P":5,"If":{"old":[1,2],"k":"v"},"Bs":"AAEC","N":"1","F64":1.5}`,
+		`{"If":[1,2,3],"M":{},"Sl":[],"PSt":null}`,
+	}
+	st := reflect.TypeOf(ccPlain{})
+	for pi, pre := range pres {
+		for i := 0; i < st.NumField(); i++ {
+			f := st.Field(i)
+			for _, raw := range ccRaws {
+				cases++
+				_ = pi // (same case id as for the empty destination: the cause is the kind and the literal)
+				id := fmt.Sprintf("decode:%s<-%s", strings.TrimPrefix(f.Type.String(), "*"), raw)
+				ccCompareUnmarshalPre(t, id, "field "+f.Name+" of ccPlain", st, pre, `{"`+f.Name+`":`+raw+`}`, false)
+			}
+		}
+		for _, doc := range []string{`{}`, `{"If":{"new":1}}`, `{"If":{"k":{"deep":1}}}`, `{"M":{"new":3}}`, `{"M":{"k":null}}`, `{"Sl":[9]}`, `{"Sl":[9,8,7,6]}`, `{"SlS":["n"]}`, `{"A":[1]}`, `{"A":[1,2,3]}`, `{"St":{}}`, `{"PSt":{}}`, `{"If":[9]}`, `{"If":"s"}`} {
+			cases++
+			ccCompareUnmarshalPre(t, fmt.Sprintf("decode:populated#%d<-%s", pi, doc), "ccPlain", st, pre, doc, false)
+			var mw, mg map[string]interface{}
+			_ = mw
+			_ = mg
+		}
+	}
+	for _, pre := range []string{`{"old":1,"k":{"a":1}}`, `{}`} {
+		for _, doc := range []string{`{}`, `{"new":2}`, `{"k":{"b":2}}`, `{"k":null}`, `{"k":[1]}`, `null`} {
+			cases++
+			ccCompareUnmarshalPre(t, "decode:populated-map<-"+doc, "map[string]interface{}", reflect.TypeOf(map[string]interface{}{}), pre, doc, false)
+			cases++
+			ccCompareUnmarshalPre(t, "decode:populated-iface<-"+doc, "interface{} holding a map", reflect.TypeOf((*interface{})(nil)).Elem(), pre, doc, false)
 		}
 	}
 	fmt.Printf("CONFORM-STATS test=decode cases=%d\n", cases)
